@@ -83,6 +83,11 @@ CLAIMED = {
    text="Lean theorems: every positional score (hence first-place, Borda, any vector) is invariant under permuting the ballots, under merging identical ballots (condensing) and under splitting a ballot into identical ballots whose weights add up; the points a ballot hands out and the head-to-head margins are equivariant under an injective renaming of candidate indices; margins are ballot-order invariant. The model is name-free, so renaming candidates with the declared order kept is the same model input and neutrality under renaming is the correspondence holding for arbitrary names. Metamorphic runs on the implementation: rename by a random bijection into a second name pool, permute ballots, split, merge, permute the declared candidate order - every round compared after un-renaming for all deterministic rules; a fixed script replayed in fresh interpreters under 2 (quick) / 8 (thorough) PYTHONHASHSEED values must give byte-identical canonical output.",
    note="Trusted: Lean kernel + standard axioms. PARTIAL: equivariance / split-invariance of the STV family and of the multi-round composites is carried by the metamorphic runs and the correspondence, not by a theorem; hash-seed independence cannot be exhibited by a model (no hash in it) and is carried by the multi-interpreter replay only.",
    ref="DESIGN.md §4 C08"),
+
+ "C07": dict(
+   text="PARTIAL proof. The full statement (DroopPSC in lean/VK/Props/C07.lean) is kept visible as a definition; proved so far are the arithmetic and combinatorial lemmas of the Droop proportionality argument over the model's count state, for all sizes: (m+1) thresholds exceed the total weight and the threshold is >= 1; a ballot solid for S counts for a member of S while one is hopeful; a fractional transfer leaves a coalition at least its weight minus one quota; pigeonhole (h <= d hopeful members sharing d quotas contain one at the quota, so a coalition holding its quotas loses nobody to elimination); a simultaneous step cannot over-fill; a candidate at the threshold is selected by the quota test. The run-level induction assembling them is not finished. The full statement is decided on the implementation by the monitor: for every finished STV/IRV run (fractional and random transfer, both modes, all tiebreaks) ALL candidate subsets S are enumerated and min(floor(W_S/threshold), |S|, m) members must be elected; coalitions are planted with weight exactly k*threshold and 1/10^6 below. The model is tied to the code by the same per-round correspondence as C02.",
+   note="Trusted: Lean kernel + standard axioms; the run-level theorem is missing, so for complete runs the property is checked (all S, every explored run), not proved; random.sample as oracle.",
+   ref="DESIGN.md §4 C07"),
 }
 TECH = "Lean 4 kernel-checked theorems over a hand-written executable model + differential correspondence check of the model against /repo/src + independent Python monitors"
 
